@@ -1,3 +1,61 @@
 import Casket.Spec.Parser
+/-
+C10 — Casketfile parsing is total, terminating and structure-preserving.
+
+Statements only (helper lemmas: Casket/Proofs/Lexer.lean, Casket/Proofs/Parser.lean).
+The model (`Casket.Lexer.lex`, `Casket.Parser.parse`) is tied to casketfile/lexer.go and
+casketfile/parse.go by the streams c10.lex / c10.parse / c10.rt.
+-/
 namespace Casket.Props.C10
+open Casket.Lexer Casket.Dispenser Casket.Parser Casket.ParserSpec
+
+/-! ### import cycles (finding F8, repaired) -/
+
+def sImportF0 : Bytes := sImport ++ [0x20, 0x66, 0x30, 0x0A]      -- "import f0\n"
+/-- a directory whose file `f0` imports itself -/
+def selfFS : FS := ⟨[("f0", sImportF0)]⟩
+def unfixed : Cfg := { fs := selfFS, cycleCheck := false, envFuel := 3 }
+
+/-- the state the unrepaired parser keeps coming back to -/
+def loopState : PState := { d := ⟨"Casketfile", [⟨"f0", 1, sImport⟩, ⟨"f0", 1, [0x66, 0x30]⟩], 0, 0⟩ }
+
+theorem loopState_step : doImport unfixed loopState = .ok loopState := by decide
+
+theorem addresses_loops (fuel : Nat) : addresses unfixed fuel loopState false = .timeout := by
+  induction fuel with
+  | zero => rfl
+  | succ n ih =>
+    have h1 : envR unfixed loopState.d.val = .ok sImport := by decide
+    have h2 : (sImport == sImport && loopState.d.isNewLine) = true := by decide
+    unfold addresses
+    rw [h1]
+    simp only [Res.bind, h2, if_true, loopState_step, ih]
+
+/-- Finding F8 on the code as it was (`cycleCheck := false` is the parser before the `fix:` commit):
+a file that imports itself is followed forever — whatever the fuel, the answer is `timeout`. -/
+theorem C10_cycle_diverges_unfixed (fuel : Nat) :
+    parse unfixed fuel "Casketfile" sImportF0 = .timeout := by
+  cases fuel with
+  | zero => rfl
+  | succ n =>
+    have hs : (Disp.new "Casketfile" (lex sImportF0)).next =
+        (true, ⟨"Casketfile", [⟨"", 1, sImport⟩, ⟨"", 1, [0x66, 0x30]⟩], 0, 0⟩) := by decide
+    unfold parse parseTokens parseAll
+    simp only [hs, Bool.not_true, Bool.false_eq_true, if_false]
+    unfold begin
+    have hne : (List.isEmpty [(⟨"", 1, sImport⟩ : Token), ⟨"", 1, [0x66, 0x30]⟩]) = false := rfl
+    simp only [hne, Bool.false_eq_true, if_false]
+    unfold addresses
+    have h1 : envR unfixed (Disp.val ⟨"Casketfile", [⟨"", 1, sImport⟩, ⟨"", 1, [0x66, 0x30]⟩], 0, 0⟩) = .ok sImport := by decide
+    have h2 : (sImport == sImport && Disp.isNewLine ⟨"Casketfile", [⟨"", 1, sImport⟩, ⟨"", 1, [0x66, 0x30]⟩], 0, 0⟩) = true := by decide
+    have h3 : doImport unfixed { d := ⟨"Casketfile", [⟨"", 1, sImport⟩, ⟨"", 1, [0x66, 0x30]⟩], 0, 0⟩, keys := [], btoks := [] }
+        = .ok loopState := by decide
+    simp only [h1, Res.bind, h2, if_true, h3, addresses_loops]
+
+/-- The repaired parser (the model the correspondence stream runs) answers the same input with
+an error that names the importing file and line. -/
+theorem C10_cycle_rejected :
+    answerOf (parse { fs := selfFS, envFuel := 3 } 10 "Casketfile" sImportF0) = .error "import-cycle" "f0" 1 := by
+  decide
+
 end Casket.Props.C10
